@@ -40,6 +40,7 @@ ErrorCodes == {<<0, 0, 0, 1>>, <<0, 0, 0, 2>>, <<0, 0, 0, 3>>, <<0, 0, 0, 4>>, <
                <<0, 0, 2, 1>>, <<0, 0, 2, 2>>, <<0, 0, 2, 3>>, <<0, 0, 2, 4>>, <<255, 255, 255, 255>>}
 Versions == {<<0, 1, 0, 0>>, <<255, 255, 255, 255>>}
 MdLens == {0, 1, 300}             \* 0 = no metadata (flag clear)
+MdLensBig == MdLens \cup {65536, 70000}   \* ... lengths that need the upper byte of the 24-bit metadata-length field
 DLens == {0, 1, 70000}
 MimeLens == {0, 1, 127}
 TokenLens == {0, 1, 65535}
@@ -63,7 +64,7 @@ Domain ==
     \cup {[Base EXCEPT !.ft = "LEASE", !.I = i, !.n = n, !.ka = ttl, !.ml = ml] : i \in Bool, n \in U31s, ttl \in U31s, ml \in MdLens}
     \cup {[Base EXCEPT !.ft = "KEEPALIVE", !.I = i, !.F = r, !.pos = p, !.dl = dl] : i \in Bool, r \in Bool, p \in U63s, dl \in DLens}
     \cup {[Base EXCEPT !.ft = t, !.sid = s, !.I = i, !.F = fo, !.ml = ml, !.dl = dl] :
-            t \in {"REQUEST_RESPONSE", "REQUEST_FNF"}, s \in SidsStream, i \in Bool, fo \in Bool, ml \in MdLens, dl \in DLens}
+            t \in {"REQUEST_RESPONSE", "REQUEST_FNF"}, s \in SidsStream, i \in Bool, fo \in Bool, ml \in MdLensBig, dl \in DLens}
     \cup {[Base EXCEPT !.ft = "REQUEST_STREAM", !.sid = s, !.I = i, !.F = fo, !.n = n, !.ml = ml, !.dl = dl] :
             s \in SidsStream, i \in Bool, fo \in Bool, n \in ReqNs, ml \in MdLens, dl \in DLens}
     \cup {[Base EXCEPT !.ft = "REQUEST_CHANNEL", !.sid = s, !.I = i, !.F = fo, !.C = c, !.n = n, !.ml = ml, !.dl = dl] :
@@ -71,7 +72,7 @@ Domain ==
     \cup {[Base EXCEPT !.ft = "REQUEST_N", !.sid = s, !.I = i, !.n = n] : s \in SidsStream, i \in Bool, n \in ReqNs}
     \cup {[Base EXCEPT !.ft = "CANCEL", !.sid = s, !.I = i] : s \in SidsStream, i \in Bool}
     \cup {[Base EXCEPT !.ft = "PAYLOAD", !.sid = s, !.I = i, !.F = fo, !.C = c, !.N = IF ml + dl > 0 THEN 1 ELSE nx, !.ml = ml, !.dl = dl] :
-            s \in SidsStream, i \in Bool, fo \in Bool, c \in Bool, nx \in Bool, ml \in MdLens, dl \in DLens}
+            s \in SidsStream, i \in Bool, fo \in Bool, c \in Bool, nx \in Bool, ml \in MdLensBig, dl \in DLens}
     \cup {[Base EXCEPT !.ft = "ERROR", !.sid = s, !.I = i, !.code = c, !.dl = dl] :
             s \in SidsStream \cup {Sid0}, i \in Bool, c \in ErrorCodes, dl \in DLens}
     \cup {[Base EXCEPT !.ft = "METADATA_PUSH", !.I = i, !.ml = ml] : i \in Bool, ml \in {1, 300}}
